@@ -916,9 +916,17 @@ class Evaluator:
         a = clo.fnode.args
         params = [p.arg for p in a.posonlyargs + a.args]
         mut = _mutated_params(clo.fnode, set(params))
-        if not mut:
-            return None, {}
         out = {}
+        if fn.op == "closure" and clo.scope is not None:
+            # a nested helper of the calling function that stores into / grows containers it captures from it
+            allp = set(params) | {p.arg for p in a.kwonlyargs} | ({a.vararg.arg} if a.vararg else set()) | ({a.kwarg.arg} if a.kwarg else set())
+            local_ = {x.id for x in ast.walk(clo.fnode) if isinstance(x, ast.Name) and isinstance(x.ctx, ast.Store)}
+            free = {x.id for x in ast.walk(clo.fnode) if isinstance(x, ast.Name)} - allp - local_
+            for nm in sorted(_mutated_params(clo.fnode, free)):
+                if sc.lookup(nm) is not None and clo.scope.lookup(nm) is sc.lookup(nm):
+                    out[nm] = nm
+        if not mut and not out:
+            return None, {}
         for i, x in enumerate(n.args):
             if i < len(params) and params[i] in mut and isinstance(x, ast.Name) and sc.lookup(x.id) is not None:
                 out[x.id] = params[i]
